@@ -81,12 +81,20 @@ def chord_oracle(model, p, d):
     b = e[0] * u[0] + e[1] * u[1] + e[2] * u[2]
     c = p[0] * p[0] + p[1] * p[1] + p[2] * (p[2] + 2 * R)      # |e|^2 - R^2 without cancellation
     D = b * b - c
-    if D <= 0:
-        return None
-    L = -b + math.sqrt(D) if b <= 0 else -c / (b + math.sqrt(D))
-    if L <= 0:
-        return None
     r0sq = c + R * R
+    # any binary64 evaluation of the discriminant b^2 - |e|^2 + R^2 (three terms of size up to 4e13 m^2, each
+    # with a few rounding errors) is uncertain by dD; near tangency this decides hit / miss and changes the
+    # in-Earth length 2 sqrt(D) by up to 2 (sqrt(D + dD) - sqrt(D - dD)): that is rounding, not discretisation
+    dD = 32 * 2.3e-16 * (b * b + r0sq + R * R)
+    if D <= -dD:
+        return None
+    slack = 100.0 * 14.0 * 2 * (math.sqrt(max(D, 0.0) + dD) - math.sqrt(max(D - dD, 0.0)))
+    D = max(D, 0.0)
+    L = -b + math.sqrt(D) if b <= 0 else -c / (b + math.sqrt(D)) if b + math.sqrt(D) > 0 else 0.0
+    if L <= 0:
+        if D > dD:
+            return None
+        return {"I": 0.0, "L": 0.0, "tv_open": 0.0, "rho_exit": 0.0, "rmin": math.sqrt(max(r0sq - b * b, 0.0)), "r0": math.sqrt(r0sq), "b": b, "slack": slack}
 
     def rad(s):
         return math.sqrt(max(r0sq + s * (2 * b + s), 0.0))
@@ -126,14 +134,16 @@ def chord_oracle(model, p, d):
     if Rm > rmin:
         tv += shell_tv(model, rmin, Rm)
     return {"I": 100.0 * total, "L": L, "tv_open": tv, "rho_exit": ref_density(model, R * (1 - 1e-15)),
-            "rmin": rmin, "r0": r0, "b": b}
+            "rmin": rmin, "r0": r0, "b": b, "slack": slack}
 
 
 def bound(o, step):
-    """Derived discretisation bound (design_notes/C15.md): for ANY sampling with cells <= step,
-    |trapezoid - integral| <= step * (TV on the half-open chord + rho_exit/2), in g/cm^2 = *100;
+    """Derived discretisation bound (design_notes/C15.md): for ANY trapezoid sampling of the chord with at
+    least one cell and cells <= step (hence cells <= h = min(step, chord length)),
+    |trapezoid - integral| <= h * (TV on the half-open chord + rho_exit/2), in g/cm^2 = *100;
     plus rounding slack."""
-    return 100.0 * step * (o["tv_open"] + 0.5 * o["rho_exit"]) * (1 + 1e-6) + 1e-9 * abs(o["I"]) + 1e-6
+    h = min(step, o["L"])
+    return 100.0 * h * (o["tv_open"] + 0.5 * o["rho_exit"]) * (1 + 1e-6) + 1e-9 * abs(o["I"]) + 1e-6 + o.get("slack", 0.0)
 
 
 def gen_files(scratch):
@@ -162,6 +172,12 @@ def rand_dir(rng):
     return (s * math.cos(ph), s * math.sin(ph), z)
 
 
+def earthref_dir_up(rng):
+    """a direction with a clearly positive vertical component (short chords from shallow depth)"""
+    d = rand_dir(rng)
+    return (d[0], d[1], abs(d[2]) * 0.7 + 0.3)
+
+
 def chord_cases(rng, n):
     """(model, endpoint, direction, step) covering: depth 0..3 km, any x,y, whole sphere incl.
     vertical / tangential / axis-parallel, lengths that are exact multiples of the step, chords
@@ -181,6 +197,14 @@ def chord_cases(rng, n):
                  ((0, 0, -200.0), (0, 0, 0.0), 500.0)]
         for p, d, s in fixed:
             cases.append((model, tuple(float(v) for v in p), tuple(float(v) for v in d), s))
+        # chords shorter than the step: vertical from depth h with step = k*h exactly, and step >> chord in general
+        for _ in range(max(6, n // 8)):
+            h = rng.choice([250.0, 125.0, 100.0, 50.0, 0.5, 1500.0, 3000.0, 31.25, 1.0, 640.0])
+            k = rng.choice([2, 3, 4, 5, 10, 100, 1, 7])
+            cases.append((model, (0.0, 0.0, -h), (0.0, 0.0, rng.choice([1.0, 2.0, 0.5])), float(h * k)))
+            hh = 10 ** rng.uniform(-1, 3.4)
+            cases.append((model, (0.0, 0.0, -hh), (0.0, 0.0, 1.0), float(rng.choice([5000.0, 1e4, 2 * hh, 3 * hh, 1e6]))))
+            cases.append((model, (rng.uniform(-50, 50), rng.uniform(-50, 50), -hh), tuple(earthref_dir_up(rng)), float(rng.choice([5000.0, 1e4, 1e5]))))
         for _ in range(n):
             depth = rng.choice([0.0, 3000.0, rng.uniform(0, 3000), rng.uniform(0, 3000), 10 ** rng.uniform(-2, 3.4)])
             xy = rng.choice([(0.0, 0.0), (rng.uniform(-5e3, 5e3), rng.uniform(-5e3, 5e3)), (rng.uniform(-1e5, 1e5), rng.uniform(-1e5, 1e5))])
@@ -513,11 +537,27 @@ def probe_invariance(ctx, impl):
         a = rng.choice([math.pi / 2, math.pi, rng.uniform(0, 2 * math.pi)])
         ca, sa = math.cos(a), math.sin(a)
         rot = lambda v: (ca * v[0] - sa * v[1], sa * v[0] + ca * v[1], v[2])
-        k = rng.choice([2.0, 0.5, 3.7, 1e-6, 1e5])
+        k = rng.choice([2.0, 0.5, 3.7, 1e-6, 1e5, 1 + 1e-6, 1 - 1e-6, 1 + 9e-6, 1 - 9e-6, 1 + 3e-8, 1 - 1e-5, 1 + 1e-4])
+        dk = tuple(k * x for x in d)
+        if rng.random() < 0.25:
+            dk = tuple(round(x, rng.choice([5, 6, 7])) for x in d)       # decimal-rounded unit vector: length 1 +- 1e-5..1e-7
+            if not any(dk):
+                continue
+            k = math.sqrt(sum(x * x for x in dk))
         try:
             base = slant(ctx, impl, model, p, d, step)
             vr = slant(ctx, impl, model, rot(p), rot(d), step)
-            vs = slant(ctx, impl, model, p, tuple(k * x for x in d), step)
+            if dk != tuple(k * x for x in d):
+                # rounded components change the direction itself: compare with the harness-normalised vector
+                nd = tuple(x / k for x in dk)
+                info2 = impl_samples(obj, p, nd, step)
+                if info2 is None or info2["gap"] < 1e-4 or abs(info2["q"] - round(info2["q"])) < 1e-6:
+                    continue
+                base_k = slant(ctx, impl, model, p, nd, step)
+                jump_k = 100.0 * rho_exit * info2["h"] / 2
+            else:
+                base_k, jump_k = base, jump
+            vs = slant(ctx, impl, model, p, dk, step)
         except ImplFailure:
             continue
         ctx.case(key=("invariance", model, p, d, step, a, k))
@@ -525,8 +565,10 @@ def probe_invariance(ctx, impl):
         if not agree(base, vr, jump):
             ctx.fail("azimuth:%s:%r:%r:%r" % (model, p, d, a), "%s.slant_depth changes from %r to %r when endpoint and direction are rotated by %r rad about the vertical (allowed: rounding, or one flip of the exit sample = %.6g)" % (
                 model, base, vr, a, jump), rep)
-        if not agree(base, vs, jump):
-            ctx.fail("scale:%s:%r:%r:%r" % (model, p, d, k), "%s.slant_depth changes from %r to %r when the direction vector is scaled by %r" % (model, base, vs, k), rep)
+        if not agree(base_k, vs, jump_k):
+            rep["scaled_direction"] = list(dk)
+            ctx.fail("scale:%s:%r:%r:%r" % (model, p, dk, k), "%s.slant_depth(endpoint=%r, step=%r) is %r for the unit direction %r but %r for the same direction with length %r (%r): the result must not depend on the length of the direction vector (allowed: rounding 1e-9 relative, or one flip of the exit sample = %.6g)" % (
+                model, p, step, base_k, [x / k for x in dk], vs, k, list(dk), jump_k), rep)
 
 
 def probe_monotone(ctx, impl):
@@ -624,6 +666,10 @@ def replay(ctx, obj):
         v = float(impl[model].slant_depth(np.array(p), np.array(d), step))
         o = chord_oracle(model, p, d) if any(d) else None
         print("implementation slant_depth = %r" % v)
+        if "scaled_direction" in obj:
+            sd = tuple(obj["scaled_direction"])
+            print("implementation slant_depth with direction %r (same direction, length %r) = %r" % (
+                sd, math.sqrt(sum(x * x for x in sd)), float(impl[model].slant_depth(np.array(p), np.array(sd), step))))
         if o:
             print("reference column density (quadrature) = %r ; chord length %r m ; bound for this step = %r ; |difference| = %r" % (o["I"], o["L"], bound(o, step), abs(v - o["I"])))
         else:
